@@ -25,6 +25,7 @@ import (
 	"net/url"
 	"os"
 	"path/filepath"
+	"reflect"
 	"runtime"
 	"sort"
 	"sync"
@@ -240,7 +241,11 @@ func ops() []op {
 				n = 200 << 10
 			}
 			h := headerFrom(o, fixedPairs(fmt.Sprintf("m%d", i), 2), pair{"Content-Type", "text/plain"})
-			b.Exchanges = append(b.Exchanges, &bundle.Exchange{Request: bundle.Request{URL: mustURL(fmt.Sprintf("https://example.com/many/%d", i)), Header: http.Header{}},
+			u := fmt.Sprintf("https://example.com/many/%d", i)
+			if i == 7 {
+				u += "#section-2" // (a URL as a caller may hold it; whatever the writer does with the fragment, the caller's URL stays as it is)
+			}
+			b.Exchanges = append(b.Exchanges, &bundle.Exchange{Request: bundle.Request{URL: mustURL(u), Header: http.Header{}},
 				Response: bundle.Response{Status: 200, Header: h, Body: bytes.Repeat([]byte{byte('a' + i%26)}, n)}})
 		}
 		return b
@@ -588,6 +593,15 @@ func run(r *mon.Run) {
 		in := o.build(r.Rand("order-a", oi))
 		for k := 0; k < reps; k++ {
 			record(0, o, "rep", "repeat", in, &yieldingWriter{})
+		}
+		// (a') a serializer reads its input: after those runs the input still equals a freshly built one (same build
+		// seed). An input edited on the way (a normalised header slice, a URL stripped of its fragment) changes what
+		// OTHER serializers make of the same object later on.
+		if fresh := o.build(r.Rand("order-a", oi)); !reflect.DeepEqual(in, fresh) {
+			r.Eval("INPUT-MODIFIED")
+			r.Violation("pure:input-modified:"+o.name, fmt.Sprintf("%s modified the object it serialized: after %d calls the input differs from a freshly built equal input", o.name, reps), nil)
+		} else {
+			r.Eval("input-unchanged")
 		}
 		// (b) permuted insertion orders
 		for k := 0; k < shuffles; k++ {
